@@ -7,14 +7,18 @@ MANIFEST = {
     "text": "Coq theorems over an executable model of the undo-log codec (ColumnImage.MarshalJSON/UnmarshalJSON by JDBC type, "
             "json/protobuf serializers, context codec, compressor selection, FlushUndoLog/Undo composition): C08_lossless "
             "(every log over the emitted (JDBC type, Go kind) pairs, every compress configuration, json serializer: what "
-            "flush writes reads back equal up to the executors' equality), C08_total (read_back never panics), C08_ctx, "
-            "C08_base64_exact; the JDBC-type switch, the writer's type switch, SQLType text tables and the compressor "
+            "flush writes reads back equal up to the executors' equality), C08_lossless_protobuf_partial (protobuf serializer, exactly the "
+            "value shapes it preserves; refuted outside), C08_total (read_back never panics), C08_ctx / C08_ctx_map (context codec on "
+            "arbitrary maps), C08_base64_exact; the JDBC-type switch, the writer's type switch, SQLType text tables and the compressor "
             "selection are REGENERATED from the Go source on every run (Gen/UndoSwitch.v) and must satisfy wf_table; the real "
             "FlushUndoLog and the real decode helpers are run on generated logs x configurations, malformed stored columns and "
-            "garbage, and context bytes, the rollback_info document and the decoded log are compared with the model inside Coq.",
+            "garbage, and END TO END through the shared AT engine (real proxy, scanner, FlushUndoLog and Undo on fakedb over every supported "
+            "column type), and context bytes, the rollback_info document and the decoded log are compared with the model inside Coq "
+            "(inside the protobuf finding region against the expected lossy outcome); rollback must restore the table dump exactly.",
     "note": "Trusted: Coq kernel, tools/xlate undo (case bodies matched against templates, anything else = GrUnknown), harness "
             "undorun, Go's time/encoding/json/protobuf text layers and the compressors as hypotheses exercised on every run. "
-            "Known findings: protobuf serializer loses integer/bytes/time typing; Lz4 compressor refuses incompressible logs.",
+            "Known findings: protobuf serializer loses integer/bytes/time typing; Lz4 compressor refuses incompressible logs; end to end: "
+            "data validation false-dirty on DECIMAL/BINARY/BLOB/non-binary32 FLOAT columns, scan error on LONGBLOB/YEAR/TIME.",
     "technique": "Coq proof over translator-regenerated tables + differential correspondence (vm_compute) + direct oracle",
 }
 TABLES = [("undo", "UndoSwitch.v")]
@@ -36,7 +40,8 @@ From SeataV Require Import Base.Bytes At.Values At.UndoCodec At.UndoCases.
 Import ListNotations. Open Scope Z_scope.
 """
 KIND = {"None": "CNone", "Gzip": "CGzip", "Zip": "CZip", "Bzip2": "CBzip2", "Lz4": "CLz4", "Zstd": "CZstd", "Deflate": "CDeflate"}
-FINDING_PREDS = ("undo.serializer.protobuf", "undo.compress.lz4")
+NIL_SLICE_KEYS = {b"rows".hex(), b"fields".hex(), b"sqlUndoLogs".hex()}
+FINDING_PREDS = ("undo.serializer.protobuf", "undo.compress.lz4", "undo.e2e.validation-kind", "undo.e2e.scan-unsupported")
 
 
 def z(n):
@@ -96,7 +101,9 @@ def tree(t):
         return "(JStr %s)" % hexs(t["s"])
     if "a" in t:
         return "(JArr %s)" % coq_list([tree(x) for x in t["a"]])
-    return "(JObj %s)" % coq_list(["(%s, %s)" % (hexs(k), tree(v)) for k, v in t["o"]])
+    # a nil Go slice is written as null, an empty one as []: the model does not distinguish them
+    return "(JObj %s)" % coq_list(["(%s, %s)" % (hexs(k), "(JArr [])" if (v == "n" and k in NIL_SLICE_KEYS) else tree(v))
+                                   for k, v in t["o"]])
 
 
 def case_term(c):
@@ -122,17 +129,29 @@ def in_finding(c, preds):
 
 def run(chk, only_seed=None):
     quick = chk.tier == "quick"
-    n, nm, ng = (150, 150, 80) if quick else (2500, 2500, 1200)
+    n, nm, ng, ne = (150, 150, 80, 64) if quick else (1500, 1500, 600, 192)
+    seeds = [chk.seed] if quick else [chk.seed + 7919 * k for k in range(5)]
     vlib.run_xlate("undo", "UndoSwitch.v")
     ok_cases, out_cases = vlib.coq_make(["At/UndoCases.vo"])
     # ---- run the real code
-    data, secs = vlib.run_harness("undo", chk.tmp("undo.json"), seed=chk.seed, n=n, malformed=nm, garbage=ng, timeout=1500)
-    cases = data["cases"]
+    cases, secs = [], 0.0
+    data = None
+    for sd in seeds:
+        d, t = vlib.run_harness("undo", chk.tmp("undo_%d.json" % sd), seed=sd, n=n, malformed=nm, garbage=ng, e2e=ne, timeout=1500)
+        secs += t
+        for c in d["cases"]:
+            c["seed"] = sd
+        cases += d["cases"]
+        if data is None:
+            data = d
+        else:
+            data["hyp_fail"] += d["hyp_fail"]
+            data["hyp_runs"] += d["hyp_runs"]
     findings = {f["pred"]: f for f in vlib.known_findings("C08")}
     # feature computed here as well: the compress configuration of the case
     for c in cases:
         cfg = c.get("cfg") or {}
-        if c["stream"] == "valid" and cfg.get("enable") and cfg.get("ctype") == "Lz4":
+        if c["stream"] in ("valid", "e2e", "e2e-rollback") and cfg.get("enable") and cfg.get("ctype") == "Lz4":
             c["features"] = (c.get("features") or []) + ["undo.compress.lz4"]
     clean = [c for c in cases if not in_finding(c, findings)]
     # ---- (A) proof, with the regenerated table
@@ -144,13 +163,16 @@ def run(chk, only_seed=None):
         if key in reported or len(reported) >= 8:
             continue
         reported.add(key)
-        chk.violation("undo log not restored: " + c["oracle"], {"case": slim(c), "seed": chk.seed, "tier": chk.tier}, True)
+        chk.violation("undo log not restored: " + c["oracle"], {"case": slim(c), "seed": c.get("seed", chk.seed), "tier": chk.tier}, True)
     hyp = [h for h in data["hyp_fail"] if not ("undo.compress.lz4" in findings and h.startswith("Lz4:"))]
     for h in hyp[:3]:
         chk.violation("compressor does not round-trip: " + h[:300], {"hypothesis": h, "seed": chk.seed}, True)
     # ---- (B2) correspondence
     mism = {}
-    cmp_cases = [c for c in clean if c["inmodel"]]
+    # the protobuf region is compared with the model too: the EXPECTED lossy outcome is part of the finding,
+    # any other loss inside the region is a violation
+    others = [p for p in findings if p != "undo.serializer.protobuf"]
+    cmp_cases = [c for c in cases if c["inmodel"] and not in_finding(c, others)]
     if ok_cases:
         terms = [case_term(c) for c in cmp_cases]
         mism = vlib.eval_mismatches("C08", HEADER, terms, case_type="ucase", shard=60)
@@ -160,6 +182,12 @@ def run(chk, only_seed=None):
         if cov != "true" and not chk.violations:
             chk.violation("the image builder emits a (JDBC type, Go kind) pair or SQL type outside the theorem's domain",
                           {"emit_pairs": data["emit_pairs"], "sqltypes": data["sqltypes"]}, False)
+    region = [i for i in mism if in_finding(cmp_cases[i], findings)]
+    for i in sorted(region, key=lambda i: len(cmp_cases[i].get("info", "")))[:3]:
+        chk.violation("inside the region of a known finding the code loses something else than the recorded outcome (%s)"
+                      % ", ".join(ERR.get(e, str(e)) for e in mism[i]),
+                      {"case": slim(cmp_cases[i]), "model_disagreements": [ERR.get(e, str(e)) for e in mism[i]],
+                       "seed": cmp_cases[i].get("seed", chk.seed), "tier": chk.tier}, True)
     if mism and not chk.violations:
         i = sorted(mism, key=lambda i: len(cmp_cases[i].get("info", "")))[0]
         chk.violation("correspondence between the model and the code broke (%s); property not shown on this tree"
@@ -188,7 +216,9 @@ def run(chk, only_seed=None):
             print("STALE-FINDING: property=C08 id=%s no longer reproduces" % f.get("id"))
             chk.notes.append("stale finding " + str(f.get("id")))
     # ---- evidence
-    valid = [c for c in cases if c["stream"] == "valid"]
+    valid = [c for c in cases if c["stream"] == "valid" and c.get("log")]
+    e2e_rows = [c for c in valid if (c.get("what") or "").startswith("e2e")]
+    e2e_rb = [c for c in cases if c["stream"] == "e2e-rollback"]
     nontrivial = [c for c in valid if c["flush"] == "ok" and c["dec"] == "ok"]
     dist = {}
     for c in cases:
@@ -202,13 +232,17 @@ def run(chk, only_seed=None):
         "rule": "deterministic sweep of every emitted (MySQL DATA_TYPE -> JDBC type, Go kind) x boundary values, then n=%d random logs "
                 "(1-2 statements, 0-2 rows, 1-5 columns) x serializer x compress type x enable x threshold through the real "
                 "FlushUndoLog and decode helpers; %d malformed stored columns (every JDBC code x ill-shaped values/keys/contexts) and "
-                "%d garbage inputs; non-trivial = flushed and decoded by the code; distinct by (config, log)" % (n, nm, ng),
+                "%d garbage inputs; %d end-to-end scenarios through the shared AT engine (real proxy/scanner/FlushUndoLog/Undo on fakedb; every "
+                "supported column type in turn x serializer x compress type; UPDATE/DELETE/INSERT in a global transaction, phase-two rollback, "
+                "dump equality); per seed, seeds %s; non-trivial = flushed and decoded by the code; distinct by (config, log)" % (n, nm, ng, ne, seeds),
         "traces_validated_against_impl": len(cmp_cases) - len(mism),
         "compared_with_model": len(cmp_cases), "clean_stream": len(clean), "finding_stream": len(cases) - len(clean),
         "within_theorem_domain": sum(1 for c in valid if (c.get("cfg") or {}).get("ser") == "json" and c["inmodel"]),
         "compressor_hypothesis_runs": data["hyp_runs"], "compressor_hypothesis_failures": len(data["hyp_fail"]),
         "input_distribution": dist, "emit_pairs_observed": data["emit_pairs"],
-        "harness_seconds": round(secs, 1),
+        "harness_seconds": round(secs, 1), "seeds": seeds,
+        "e2e_undo_rows_through_real_scanner": len(e2e_rows), "e2e_rollbacks": len(e2e_rb),
+        "e2e_rollbacks_restored_exactly": sum(1 for c in e2e_rb if not c["oracle"]),
         "samples": [slim(c) for c in nontrivial[len(nontrivial) // 2:len(nontrivial) // 2 + 2]],
     })
     chk.assumptions += ["time.Format/Parse, encoding/json's text layer, protobuf wire format and the compressors are modelled as "
